@@ -12,18 +12,20 @@ import pandas as pd
 
 from rv.core import vio
 from rv.instrument import patch
+from rv.workloads import forms
 
 ID = 'C05'
 RULE = ('seeded random pva: |lat|<=85, lon incl. the +-180 region, alt 0..20 km, speed 0..300 m/s incl. vertical, '
         'roll/heading anywhere, |pitch|<=85 (class steep: 70..85); random internal error vectors at scale '
-        's0 = (10 m, 1 m/s, 0.5 deg) and 5 halvings; both altitude modes; non-trivial = not the single '
+        's0 = (10 m, 1 m/s, 0.5 deg) and 5 halvings; both altitude modes; a fifth of the Pva series with their labels in another order; every other case on a long-lived model with a long-lived Pva object overwritten in place; non-trivial = not the single '
         'hand-written state of the existing test; distinct = generator parameters')
 ASSUMPTIONS = ['second order is decided by extracting the first-order coefficient of the residual (Richardson on rungs 1/4, 1/8, 1/16) '
                'and requiring it below 1e-5 of the linear term; log-log slopes are recorded as evidence only']
-REQUIRED_OBS = ['tiny_corrections', 'left_inverse', 'correct_ladder', 'perturb_correct_ladder', 'twoD_rows_zero', 'twoD_alt_vd_frozen',
+REQUIRED_OBS = ['pva_labels_permuted', 'reused_model_and_pva_object', 'tiny_corrections', 'left_inverse', 'correct_ladder', 'perturb_correct_ladder', 'twoD_rows_zero', 'twoD_alt_vd_frozen',
                 'ladder_groups_above_floor']
 REQUIRED_CLASSES = {'all': ['generic3d', 'generic2d', 'steep3d', 'steep2d', 'south_west', 'slow']}
 EPS = np.finfo(float).eps
+LIVE = {}
 NED = ['north', 'east', 'down']
 VEL = ['VN', 'VE', 'VD']
 RPH = ['roll', 'pitch', 'heading']
@@ -109,6 +111,22 @@ def run_case(case):
     pva = gen_pva(rng, cls)
     out = []
     obs = {}
+    frng = np.random.Generator(np.random.PCG64(case['seed'] + 11))
+    if frng.random() < 0.2:
+        # the documented Pva type is a label set: same state, labels in another order
+        pva = pva[list(frng.permutation(list(pva.index)))]
+        obs['pva_labels_permuted'] = 1
+    if case['seed'] % 2 == 1:
+        # a long-lived model and a long-lived Pva object overwritten in place between uses (a memo keyed on object identity, or a
+        # retained reference to the caller's Series, only shows on such a history): warm up on another state, then overwrite
+        em, holder = LIVE.setdefault(wa, (InsErrorModel(wa), forms.Reused()))
+        warm = gen_pva(frng, cls)[list(pva.index)]
+        live = holder.put(warm)
+        em.transform_to_output(live)
+        em.transform_to_internal(live)
+        em.correct_pva(live, np.zeros(em.n_states))
+        pva = holder.put(pva)
+        obs['reused_model_and_pva_object'] = 1
 
     def bump(k, m=1):
         obs[k] = obs.get(k, 0) + int(m)
@@ -175,7 +193,7 @@ def run_case(case):
     for s in ss:
         x = s * x0
         corrected = em.correct_pva(pva, x)
-        if list(corrected.index) != list(pva.index):
+        if sorted(corrected.index) != sorted(pva.index):
             fail('correct_labels', f'correct_pva returned labels {list(corrected.index)}')
             return dict(violations=out, obs=obs)
         if not wa:
